@@ -18,8 +18,10 @@ request outside them is rejected (`Ev.reject`) and changes nothing, so the histo
 
 Finding F21 (known_findings/C09.json): the first update of an unregistered channel that carries no
 interest registers the descriptor with an empty mask.  The ghost flag `State.blind` records that this
-happened; the `_partial` theorems assume it did not, `refine_full_false`, `no_abort_poll_false`,
-`idle_blocks_false` are the negation witnesses of the full statements.
+happened; the `_partial` theorems assume it did not; `refine_full_false`, `refine_epoll_false`,
+`no_abort_poll_false`, `index_inv_false`, `same_callbacks_false`, `idle_blocks_false` are the negation
+witnesses of the full statements (`dispatch_reported_poll_partial` is not known to fail with F21; its
+proof uses the slot invariant).
 -/
 namespace MuduoVerif.C09
 open MuduoVerif.Poller MuduoVerif.Gen.Poller
@@ -61,6 +63,15 @@ theorem refine_epoll_partial (ins : List In) (hb : (reach .epoll ins).blind = fa
     watched (reach .epoll ins) fd mask ↔ specWatched (reach .epoll ins) fd mask :=
   epStruct_refines (epGood_run ins).1 (epGood_run ins).2 hb fd mask
 
+/-- the hypothesis `blind = false` of the `_partial` theorems can be read off the trace: the ghost flag is
+set only if the trace shows an `enable*/disable*` that left a channel which was unregistered (according
+to the operations before it) without interest — or the process died executing it -/
+theorem blind_visible (be : Backend) (ins : List In) (hb : (reach be ins).blind = true) :
+    (reach be ins).dead = true ∨
+      ∃ pre c k i post, (reach be ins).out = pre ++ .op c k 0 i :: post ∧ k.isUpdate = true ∧
+        histAdded c pre = false :=
+  (blindInv_run be ins).vis hb
+
 /-! ## no failure -/
 
 /-- **no_ctl_failure**: after every history, under either back-end, with or without F21, whatever the
@@ -101,7 +112,7 @@ theorem no_abort_epoll (ins : List In) (henv : Along epEnvOk (init .epoll) ins) 
 its descriptor to it; indices of registered channels are distinct; every entry is owned; an
 unregistered channel has no slot.  Holds after every history, i.e. for every removal order
 (swap-with-last) and every re-registration -/
-theorem index_inv (ins : List In) (hb : (reach .poll ins).blind = false) :
+theorem index_inv_partial (ins : List In) (hb : (reach .poll ins).blind = false) :
     let s := reach .poll ins
     (∀ c, (s.chans c).added = true →
       0 ≤ (s.chans c).index ∧ s.cmap (fdOf c) = some c ∧
@@ -112,6 +123,15 @@ theorem index_inv (ins : List In) (hb : (reach .poll ins).blind = false) :
     (∀ c, (s.chans c).added = false → (s.chans c).index < 0 ∧ s.cmap (fdOf c) = none) := by
   have h := ((pollGood_run ins).2 hb).2
   exact ⟨h.reg, fun c d hc hd hi => h.idx_inj hc hd hi, h.cover, fun c hc => ⟨(h.unreg c hc).1, (h.unreg c hc).2.2⟩⟩
+
+/-- F21: a channel registered without interest sits in `pollfds_` with its descriptor *not* negated -/
+theorem index_inv_false :
+    ¬ ∀ (ins : List In) (c : Nat), ((reach .poll ins).chans c).added = true →
+      (reach .poll ins).pollfds[((reach .poll ins).chans c).index.toNat]? =
+        some (if ((reach .poll ins).chans c).events = 0 then pollIgnoreFd (fdOf c) else fdOf c,
+          ((reach .poll ins).chans c).events) := by
+  intro h
+  exact absurd (h [.op 2 .disableAll] 2 (by decide)) (by decide)
 
 /-- the slot-state machine of `EPollPoller` (every history, F21 included): a registered channel is in
 `channels_` and either *added* with its interest word in the kernel, or *deleted*, without interest and
@@ -144,7 +164,7 @@ theorem dispatch_sound (be : Backend) (ins : List In) {pre post : List Ev} {c : 
 /-- the callback's `revents` are the kernel's answer of *this* iteration: in every iteration from a
 reachable state the loop calls only channels of the active list the poller returned, each with
 `revents = lookupRev ready c`, the value reported for it (poll loop; histories without F21) -/
-theorem dispatch_reported_poll (ins : List In) (hb : (reach .poll ins).blind = false) (ready nret) :
+theorem dispatch_reported_poll_partial (ins : List In) (hb : (reach .poll ins).blind = false) (ready nret) :
     ∃ l, (iter (reach .poll ins) ready nret).out = (pollerPoll (reach .poll ins) ready nret).1.out ++ l ∧
       ∀ c k rev ev, Ev.cb c k rev ev ∈ l →
         c ∈ (pollerPoll (reach .poll ins) ready nret).2 ∧ rev = lookupRev ready c := by
@@ -194,17 +214,25 @@ and callbacks `(channel, kind, revents, interest)`, *in order*), provided no cha
 without interest (F21), the kernel behaves, reports each descriptor once, and in every iteration both
 pollers hand the loop the same active list (`simEnvOk`: `epoll_wait` lists the descriptors in the order
 `PollPoller` scans them).  The final states agree on every channel's interest, `revents_` and registration -/
-theorem same_callbacks (ins : List In) (henv : Along2 simEnvOk (init .poll) (init .epoll) ins)
+theorem same_callbacks_partial (ins : List In) (henv : Along2 simEnvOk (init .poll) (init .epoll) ins)
     (hb : (reach .poll ins).blind = false) :
     absOut (reach .poll ins).out = absOut (reach .epoll ins).out ∧ AbsEq (reach .poll ins) (reach .epoll ins) :=
   let h := sim_run ins _ _ sim_init henv hb
   ⟨h.out, h.abs⟩
 
+/-- F21: after a blind registration `remove()` kills the poll loop (blind-abort) while the epoll loop goes
+on — without the hypothesis the traces differ -/
+theorem same_callbacks_false :
+    ¬ ∀ ins : List In, Along2 simEnvOk (init .poll) (init .epoll) ins →
+      absOut (reach .poll ins).out = absOut (reach .epoll ins).out := by
+  intro h
+  exact absurd (h [.op 2 .disableAll, .op 2 .remove, .op 2 .enableR] (by decide)) (by decide)
+
 /-- **same_watch**: … and then both back-ends ask the kernel to watch the same descriptor → mask map -/
-theorem same_watch (ins : List In) (henv : Along2 simEnvOk (init .poll) (init .epoll) ins)
+theorem same_watch_partial (ins : List In) (henv : Along2 simEnvOk (init .poll) (init .epoll) ins)
     (hb : (reach .poll ins).blind = false) (fd : Int) (mask : Nat) :
     watched (reach .poll ins) fd mask ↔ watched (reach .epoll ins) fd mask := by
-  have h := (same_callbacks ins henv hb).2
+  have h := (same_callbacks_partial ins henv hb).2
   rw [refine_poll_partial ins hb, refine_epoll_partial ins (h.blind ▸ hb)]
   unfold specWatched
   constructor
@@ -218,7 +246,7 @@ order in which the kernel lists the ready descriptors does not matter: if in eve
 return the same channels (`permEnvOk`: a permutation), both loops execute the same operations with the
 same results, run the same multiset of callbacks `(channel, kind, revents, interest)`, and agree on every
 channel's interest, `revents_` and registration afterwards -/
-theorem same_callbacks_unordered (ins : List In) (henv : Along2 permEnvOk (init .poll) (init .epoll) ins)
+theorem same_callbacks_unordered_partial (ins : List In) (henv : Along2 permEnvOk (init .poll) (init .epoll) ins)
     (hb : (reach .poll ins).blind = false) :
     opsOut (reach .poll ins).out = opsOut (reach .epoll ins).out ∧
     (cbOut (reach .poll ins).out).Perm (cbOut (reach .epoll ins).out) ∧
@@ -229,7 +257,7 @@ theorem same_callbacks_unordered (ins : List In) (henv : Along2 permEnvOk (init 
   ⟨h.ops, h.cbs, fun c => ⟨h.ev c, h.rev c, h.added c⟩⟩
 
 /-- … and ask the kernel to watch the same map -/
-theorem same_watch_unordered (ins : List In) (henv : Along2 permEnvOk (init .poll) (init .epoll) ins)
+theorem same_watch_unordered_partial (ins : List In) (henv : Along2 permEnvOk (init .poll) (init .epoll) ins)
     (hb : (reach .poll ins).blind = false) (fd : Int) (mask : Nat) :
     watched (reach .poll ins) fd mask ↔ watched (reach .epoll ins) fd mask := by
   have h := wsim_run ins _ _ wsim_init henv hb
